@@ -3601,7 +3601,8 @@ class DecVar(Vars):
 
             if len(outputs) > 1:
                 ind_label = self.dro_model.series_scen.index
-                return pd.Series([outputs[edict[key]] for key in edict],
+                return pd.Series([outputs[edict[key]]
+                                  for key in range(len(edict))],
                                  index=ind_label)
             else:
                 return outputs[0]
@@ -3628,7 +3629,8 @@ class DecVar(Vars):
 
             if len(outputs) > 1:
                 ind_label = self.dro_model.series_scen.index
-                return pd.Series([outputs[edict[key]] for key in edict],
+                return pd.Series([outputs[edict[key]]
+                                  for key in range(len(edict))],
                                  index=ind_label)
             else:
                 return outputs[0]
